@@ -584,8 +584,15 @@ pub fn did_of_url(url: &str) -> &str {
   &url[..end]
 }
 
+/// Harness-side DID syntax check (no path, query or fragment), independent of the library's parser.
 pub fn is_did(s: &str) -> bool {
-  CoreDID::parse(s).is_ok()
+  let mut parts = s.splitn(3, ':');
+  let (Some("did"), Some(method), Some(id)) = (parts.next(), parts.next(), parts.next()) else { return false };
+  !method.is_empty()
+    && method.bytes().all(|b| b.is_ascii_lowercase() || b.is_ascii_digit())
+    && !id.is_empty()
+    && !id.ends_with(':')
+    && id.bytes().all(|b| b.is_ascii_alphanumeric() || matches!(b, b'.' | b'-' | b'_' | b':' | b'%'))
 }
 
 pub fn variant_names(errs: &[identity_credential::validator::JwtValidationError]) -> Vec<&'static str> {
